@@ -43,6 +43,17 @@ def run_case(case, ctx):
         ctx.label("rejected")
         return
     ctx.label("built")
+    if case.get("again", 0) % 4 == 3 and m:
+        # the caller goes on using (and changing) the dict the map was built from: the map is immutable and holds what it was built from
+        src = m
+        m = dict(src)
+        for i, k2 in enumerate(list(src)):
+            if i % 2:
+                del src[k2]
+            else:
+                src[k2] = "changed after construction"
+        src[(10 ** 6, 10 ** 6 + 1)] = "added after construction"
+        ctx.label("source-dict-changed-after-construction")
     ctx.need(len(im) == len(uniq), "ImmutIntervalMap/len/wrong", lambda: "len %r expected %d" % (len(im), len(uniq)))
     it = take(im, len(uniq) + 2)
     ctx.need(it == sorted(m.items()), "ImmutIntervalMap/iter/wrong", lambda: "iteration %r expected %r" % (it, sorted(m.items())))
@@ -81,9 +92,6 @@ def run_case(case, ctx):
     elif mode == 2:
         pairs = take(zip(im, im), len(uniq) + 2)
         ctx.need(pairs == list(zip(exp, exp)), "ImmutIntervalMap/iter/interleaved-wrong", lambda: "zip(map, map) gave %r for %r" % (pairs, exp))
-    elif mode == 3:
-        m[(max(pts) + 5, max(pts) + 6) if pts else (0, 1)] = "late"   # the source dict changes after construction
-        del m[(max(pts) + 5, max(pts) + 6) if pts else (0, 1)]
     it = take(im, len(uniq) + 2)
     ctx.need(it == exp, "ImmutIntervalMap/iter/wrong-after-other-observations",
              lambda: "iteration after lookups and an earlier iteration gave %r expected %r" % (it, exp))
